@@ -24,6 +24,16 @@ def _quiet():
         m.DEFAULT_PRINTER.quiet = True
 
 
+EXT_TIMEOUT = 12
+
+
+class ItemTimeout(BaseException):
+    pass
+
+
+ALLOW_DUPLICATES = [False]     # set for "extended" items: multisets with repeated elements (outside the model, spec-level only)
+
+
 def node_children(n):
     import graphtage as g
     if isinstance(n, g.KeyValuePairNode):
@@ -70,7 +80,7 @@ def ser_tree(n):
     if isinstance(n, g.FixedKeyDictNode):
         return ['fdict', [ser_tree(c) for c in n._children.values()]]
     if isinstance(n, g.MultiSetNode):
-        if any(v != 1 for v in n._children.values()):
+        if any(v != 1 for v in n._children.values()) and not ALLOW_DUPLICATES[0]:
             raise ValueError('multiset with duplicate elements')
         return ['mset', bool(n.auto_match_keys), [ser_tree(c) for c in n._children.elements()]]
     raise ValueError(f'unsupported node class {type(n).__name__}')
@@ -183,8 +193,50 @@ def build_pair(item):
     return a, b, opts
 
 
+def build_ext(v, opts):
+    """json.build_tree extended by {"__mset__": [...]}: a MultiSetNode built directly from the (possibly repeated)
+    elements - the node class Python sets and hand-built trees use; everything else goes through the real json.build_tree
+    logic (lists and mappings are rebuilt here only so that a multiset can occur below them)."""
+    import graphtage as g
+    from graphtage import json as gjson
+    if isinstance(v, dict) and set(v) == {'__mset__'}:
+        return g.MultiSetNode([build_ext(x, opts) for x in v['__mset__']])
+    if isinstance(v, list):
+        return g.ListNode([build_ext(x, opts) for x in v], allow_list_edits=opts.allow_list_edits,
+                          allow_list_edits_when_same_length=opts.allow_list_edits_when_same_length)
+    if isinstance(v, dict):
+        items = {gjson.build_tree(k, options=opts, force_leaf_node=True): build_ext(x, opts) for k, x in v.items()}
+        if opts.allow_key_edits:
+            d = g.DictNode.from_dict(items)
+            d.auto_match_keys = opts.auto_match_keys
+            return d
+        return g.FixedKeyDictNode.from_dict(items)
+    return gjson.build_tree(v, opts)
+
+
 def impl_script(item):
-    """item: {'a': json value, 'b': json value, 'opts': [dict strategy, list mode]}"""
+    """item: {'a': json value, 'b': json value, 'opts': [dict strategy, list mode]}; with 'ext': true the values may
+    contain {"__mset__": [...]} (multisets with repeated elements; outside the model: evaluated at spec level only)"""
+    if item.get('ext'):
+        import graphtage
+        ALLOW_DUPLICATES[0] = True
+
+        def build():
+            opts = graphtage.BuildOptions(**options_kwargs(*item['opts']))
+            return build_ext(item['a'], opts), build_ext(item['b'], opts)
+        import signal
+
+        def on_alarm(signum, frame):
+            # a BaseException: logging (where a spinning repeat_until_tightened spends its time) swallows Exceptions
+            raise ItemTimeout('the implementation did not finish within %d s' % EXT_TIMEOUT)
+        signal.signal(signal.SIGALRM, on_alarm)
+        signal.setitimer(signal.ITIMER_REAL, EXT_TIMEOUT, 1.0)      # re-armed every second until it gets through
+        try:
+            r = run_script(build)
+        finally:
+            signal.setitimer(signal.ITIMER_REAL, 0)
+        r['ext'] = True
+        return r
     return run_script(lambda: build_pair(item)[:2])
 
 
@@ -432,6 +484,64 @@ def gen_pair(rng, depth, width):
             bv = mutate(rng, bv)
         return a, bv
     return a, gen_value(rng, depth, width)
+
+
+def gen_ext_pair(rng):
+    """pairs of documents containing multisets with repeated elements (kept k >= 2 times, partly kept, nested)"""
+    def mset(rng, depth):
+        base = [gen_scalar(rng) if depth <= 0 or rng.random() < 0.7 else gen_value(rng, 1, 2) for _ in range(rng.randint(1, 3))]
+        els = []
+        for x in base:
+            els += [x] * rng.choice([1, 2, 2, 3])
+        rng.shuffle(els)
+        return {'__mset__': els}
+
+    def mutate_mset(rng, m):
+        els = list(m['__mset__'])
+        r = rng.random()
+        if els and r < 0.35:
+            els[rng.randrange(len(els))] = gen_scalar(rng)
+        elif els and r < 0.6:
+            del els[rng.randrange(len(els))]
+        elif r < 0.85:
+            els.insert(rng.randint(0, len(els)), rng.choice(els) if els and rng.random() < 0.5 else gen_scalar(rng))
+        else:
+            rng.shuffle(els)
+        return {'__mset__': els}
+    a = mset(rng, 1)
+    b = mutate_mset(rng, a)
+    if rng.random() < 0.4:
+        b = mutate_mset(rng, b)
+    r = rng.random()
+    if r < 0.3:
+        return [a, 1], [b, 1]
+    if r < 0.5:
+        return {'k': a, 'x': 1}, {'k': b, 'x': 2}
+    if r < 0.6:
+        return {'__mset__': [a, a, 1]}, {'__mset__': [a, b, 1]}
+    return a, b
+
+
+EXT_FIXED_PAIRS = [
+    ({'__mset__': [1, 1, 2]}, {'__mset__': [1, 1, 3]}), ({'__mset__': [1, 1, 1, 2]}, {'__mset__': [1, 1, 3]}),
+    ({'__mset__': [1, 1, 2]}, {'__mset__': [3, 3]}), ({'__mset__': ['a', 'a', 'b', 'b']}, {'__mset__': ['a', 'b', 'b', 'c']}),
+    ([{'__mset__': [1, 1, 2]}, 5], [{'__mset__': [1, 1, 3]}, 5]), ({'__mset__': [[1], [1], 2]}, {'__mset__': [[1], [1], [2]]}),
+    ({'__mset__': []}, {'__mset__': [1, 1]}), ({'__mset__': [1, 1]}, {'__mset__': []}),
+]
+
+
+def has_dup_mset_value(v):
+    """pure serialiser-side mirror of ScriptKnown.kf_multiset_duplicates on the item's VALUE (used only when the
+    implementation produced no trees at all): some {"__mset__": [...]} lists a JSON-equal element twice"""
+    if isinstance(v, dict) and set(v) == {'__mset__'}:
+        els = v['__mset__']
+        keys = [json.dumps(x, sort_keys=True) for x in els]
+        return len(set(keys)) < len(keys) or any(has_dup_mset_value(x) for x in els)
+    if isinstance(v, list):
+        return any(has_dup_mset_value(x) for x in v)
+    if isinstance(v, dict):
+        return any(has_dup_mset_value(x) for x in v.values())
+    return False
 
 
 def nontrivial(a, b):
